@@ -5,6 +5,7 @@ from __future__ import annotations
 import itertools
 
 from ..decoders import *
+from ..decoders import _F
 from ..rt import *
 from ..tablecheck import check_tables, short
 from ..values import *
@@ -213,6 +214,51 @@ def check(prog, run):
         for x in facts:
             if x[0] == "site" and (x[1],) not in known_sites:
                 run.notes.append("%s also applies %s at %r" % (c, short(x[1]), x[2]))
+    # the shortest responses the standards allow: exactly that many bytes, format-selecting bytes fixed, the rest arbitrary
+    nmin = 0
+    for case in refr.MINIMAL:
+        modname, clsname = case["cls"].split(":")
+        cls = prog.cls(modname, clsname)
+        f = prog.func(modname, clsname, "unmarshall_datain")
+        nmin += 1
+
+        def thm(case=case, cls=cls):
+            cells = [case["fixed"].get(i, mem_byte("resp", (None, i))) for i in range(case["length"])]
+            fn = I.get_attr(cls, "unmarshall_datain", None, _F())
+            return I.call(fn, [Buf(cells=cells)], dict(case["kwargs"]), None, _F())
+        c = "%s.unmarshall_datain on %s (%d bytes)" % (clsname, case["note"], case["length"])
+        try:
+            ps = I.explore(thm, max_paths=400)
+        except AnalysisError as e:
+            if e.reason == "path-limit":
+                run.notes.append("%s: undecided (%s)" % (c, e.detail))     # the other C04 rules still apply to this decoder
+                continue
+            if e.reason != "static-loop-does-not-terminate":
+                raise
+            run.violation("minimum-length-response-decodes", c, "the decoder never returns on this response (%s)" % e.detail,
+                          prog.rel(f.module), f.node.lineno, f.qualname)
+            continue
+        bad = [p for p in ps if not p.returned]
+        if bad:
+            run.violation("minimum-length-response-decodes", c,
+                          "a conformant response of exactly %d bytes (%s) makes the decoder raise %s%s"
+                          % (case["length"], case["note"], bad[0].raised.describe(), (" [when %s]" % bad[0].cond_str()[:160]) if bad[0].path else ""),
+                          prog.rel(f.module), f.node.lineno, f.qualname)
+        else:
+            run.ok("minimum-length-response-decodes", c, {"paths": len(ps)})
+            if case.get("count"):
+                key, n = case["count"]
+                got = set()
+                for p in ps:
+                    v = p.value.get(key) if isinstance(p.value, dict) else None
+                    got.add(len(v) if isinstance(v, list) and not I.list_is_summary(v) else repr(v)[:60])
+                if got == {n}:
+                    run.ok("everything-inside-the-length-is-returned", c)
+                else:
+                    run.violation("everything-inside-the-length-is-returned", c,
+                                  "the response carries %d entries inside its reported length; result[%r] has %s"
+                                  % (n, key, sorted(got, key=repr)), prog.rel(f.module), f.node.lineno, f.qualname)
+    run.count("minimal_responses", nmin)
     for name in refr.UNCONSTRAINED_DECODERS:
         run.unconstrained.append(name)
     run.count("decoders", ndec)
